@@ -91,101 +91,28 @@ func capture(r *Record, msg *tars.Message) {
 
 func registerFilters(f FilterCfg) {
 	if f.CSingle > 0 {
-		tars.RegisterClientFilter(func(ctx context.Context, msg *tars.Message, invoke tars.Invoke, timeout time.Duration) error {
-			r := cRec(msg)
-			if r != nil {
-				r.Event("c.single.before")
-			}
-			err := invoke(ctx, msg, timeout)
-			if r != nil {
-				r.Event("c.single.after")
-				capture(r, msg)
-			}
-			return err
-		})
+		RegisterOne("c", "single")
 	}
 	for i := 0; i < f.CMw; i++ {
-		i := i
-		tars.UseClientFilterMiddleware(func(next tars.ClientFilter) tars.ClientFilter {
-			return func(ctx context.Context, msg *tars.Message, invoke tars.Invoke, timeout time.Duration) error {
-				r := cRec(msg)
-				if r != nil {
-					r.Event(fmt.Sprintf("c.mw%d.before", i))
-				}
-				err := next(ctx, msg, invoke, timeout)
-				if r != nil {
-					r.Event(fmt.Sprintf("c.mw%d.after", i))
-					capture(r, msg)
-				}
-				return err
-			}
-		})
+		RegisterOne("c", "mw")
 	}
 	for i := 0; i < f.CPre; i++ {
-		i := i
-		tars.RegisterPreClientFilter(func(ctx context.Context, msg *tars.Message, invoke tars.Invoke, timeout time.Duration) error {
-			if r := cRec(msg); r != nil {
-				r.Event(fmt.Sprintf("c.pre%d", i))
-			}
-			return nil
-		})
+		RegisterOne("c", "pre")
 	}
 	for i := 0; i < f.CPost; i++ {
-		i := i
-		tars.RegisterPostClientFilter(func(ctx context.Context, msg *tars.Message, invoke tars.Invoke, timeout time.Duration) error {
-			if r := cRec(msg); r != nil {
-				r.Event(fmt.Sprintf("c.post%d", i))
-				capture(r, msg)
-			}
-			return nil
-		})
+		RegisterOne("c", "post")
 	}
 	if f.SSingle > 0 {
-		tars.RegisterServerFilter(func(ctx context.Context, d tars.Dispatch, imp interface{}, req *requestf.RequestPacket, resp *requestf.ResponsePacket, withContext bool) error {
-			r := sRec(req)
-			if r != nil {
-				r.Event("s.single.before")
-			}
-			err := d(ctx, imp, req, resp, withContext)
-			if r != nil {
-				r.Event("s.single.after")
-			}
-			return err
-		})
+		RegisterOne("s", "single")
 	}
 	for i := 0; i < f.SMw; i++ {
-		i := i
-		tars.UseServerFilterMiddleware(func(next tars.ServerFilter) tars.ServerFilter {
-			return func(ctx context.Context, d tars.Dispatch, imp interface{}, req *requestf.RequestPacket, resp *requestf.ResponsePacket, withContext bool) error {
-				r := sRec(req)
-				if r != nil {
-					r.Event(fmt.Sprintf("s.mw%d.before", i))
-				}
-				err := next(ctx, d, imp, req, resp, withContext)
-				if r != nil {
-					r.Event(fmt.Sprintf("s.mw%d.after", i))
-				}
-				return err
-			}
-		})
+		RegisterOne("s", "mw")
 	}
 	for i := 0; i < f.SPre; i++ {
-		i := i
-		tars.RegisterPreServerFilter(func(ctx context.Context, d tars.Dispatch, imp interface{}, req *requestf.RequestPacket, resp *requestf.ResponsePacket, withContext bool) error {
-			if r := sRec(req); r != nil {
-				r.Event(fmt.Sprintf("s.pre%d", i))
-			}
-			return nil
-		})
+		RegisterOne("s", "pre")
 	}
 	for i := 0; i < f.SPost; i++ {
-		i := i
-		tars.RegisterPostServerFilter(func(ctx context.Context, d tars.Dispatch, imp interface{}, req *requestf.RequestPacket, resp *requestf.ResponsePacket, withContext bool) error {
-			if r := sRec(req); r != nil {
-				r.Event(fmt.Sprintf("s.post%d", i))
-			}
-			return nil
-		})
+		RegisterOne("s", "post")
 	}
 }
 
@@ -353,6 +280,19 @@ func ChildMain() {
 	newCtx := func() context.Context { return current.ContextWithClientCurrent(context.Background()) }
 	var recs []*Record
 	var scens []scenRun
+	if hist := ParseHistory(os.Getenv("VERIF_E2E_HISTORY")); hist != nil && len(FuncNames) > 0 {
+		if hist.Seed == 0 {
+			hist.Seed = smallSeed(rng)
+		}
+		recs = RunHistory(hist)
+		time.Sleep(300 * time.Millisecond)
+		serverGone()
+		judgeAll(o, res, fcfg, pool, recs, scens, taps)
+		if err := res.Write(o.Out); err != nil {
+			panic(err)
+		}
+		os.Exit(0)
+	}
 	if longrun != nil && len(FuncNames) > 0 {
 		if longrun.Seed == 0 {
 			longrun.Seed = smallSeed(rng)
@@ -522,12 +462,16 @@ type Case struct {
 	// large phase (big.go): the whole phase is re-run on replay (the values follow from the seed;
 	// the interleaving of the callers does not, so a replay repeats the phase a few times)
 	// long-run phase (longrun.go): the sequential stream is re-run; Index = the offending call
-	LongRun *LongRun    `json:"longrun,omitempty"`
-	Index   int         `json:"index,omitempty"`
-	Large   *LargePhase `json:"large,omitempty"`
-	Big     *BigSpec    `json:"big,omitempty"`
-	GenSeed int64       `json:"gen_seed,omitempty"`
-	GenTier string      `json:"gen_tier,omitempty"`
+	// filter-registration history (history.go): re-run on replay; Index = the step of the call,
+	// State = the registration state when it was issued
+	History *History     `json:"history,omitempty"`
+	State   *FilterState `json:"state,omitempty"`
+	LongRun *LongRun     `json:"longrun,omitempty"`
+	Index   int          `json:"index,omitempty"`
+	Large   *LargePhase  `json:"large,omitempty"`
+	Big     *BigSpec     `json:"big,omitempty"`
+	GenSeed int64        `json:"gen_seed,omitempty"`
+	GenTier string       `json:"gen_tier,omitempty"`
 }
 
 func judgeAll(o *common.Opts, res *common.Result, fcfg FilterCfg, pool int, recs []*Record, scens []scenRun, taps []*Tap) {
@@ -543,6 +487,9 @@ func judgeAll(o *common.Opts, res *common.Result, fcfg FilterCfg, pool int, recs
 		}
 		if r.Long != nil {
 			c.Role, c.LongRun, c.Index = r.Role, r.Long, r.Index
+		}
+		if r.Hist != nil {
+			c.History, c.State, c.Index = r.Hist, r.FState, r.Index
 		}
 		return c
 	}
@@ -588,7 +535,11 @@ func judgeAll(o *common.Opts, res *common.Result, fcfg FilterCfg, pool int, recs
 		if errk == "" {
 			errk = "ok"
 		}
-		if r.Long != nil {
+		if r.Hist != nil {
+			res.Count(fmt.Sprintf("history/%s/%d", r.Hist, r.Index), fmt.Sprintf("call:history:%s:client-%s:server-%s", r.Hist.Variant,
+				selName(r.FState.CGen, r.FState.Cfg.CMw, r.FState.Cfg.CPre+r.FState.Cfg.CPost),
+				selName(r.FState.SGen, r.FState.Cfg.SMw, r.FState.Cfg.SPre+r.FState.Cfg.SPost)), true)
+		} else if r.Long != nil {
 			res.Count(fmt.Sprintf("%s/longrun/%s/%d", fcfg, r.Long, r.Index), longClass(r), true)
 		} else if r.Big != nil {
 			res.Count(fmt.Sprintf("%s/pool%d/large/%s/%s/%d", fcfg, pool, r.Fn, r.Mode, r.Seed), bigClass(r), true)
@@ -628,13 +579,20 @@ func judgeAll(o *common.Opts, res *common.Result, fcfg FilterCfg, pool int, recs
 		if r.Panic == "" && r.SrvCount == 1 {
 			ct := sideTrace(r.Events, "c")
 			st := sideTrace(r.Events, "s")
-			wc := withoutCall(expectedTrace("c", fcfg.CSingle, fcfg.CMw, fcfg.CPre, fcfg.CPost))
-			ws := withoutCall(expectedTrace("s", fcfg.SSingle, fcfg.SMw, fcfg.SPre, fcfg.SPost))
+			// the registration state that applies to this call: the child's fixed configuration, or
+			// (history.go) the state when the call was issued
+			fst := FilterState{Cfg: fcfg, CGen: 1, SGen: 1}
+			if r.FState != nil {
+				fst = *r.FState
+			}
+			fcfg := fst.Cfg
+			wc := withoutCall(expectedTraceAt("c", fst))
+			ws := withoutCall(expectedTraceAt("s", fst))
 			if !eqStrs(ct, wc) {
-				res.Violate(common.Violation{Signature: "C01:filter-trace:client", What: fmt.Sprintf("client filters saw %v, expected %v", ct, wc), Case: common.Case{Stream: "e2e", Op: cs}})
+				res.Violate(common.Violation{Signature: "C01:filter-trace:client" + histLocus(r), What: fmt.Sprintf("client filters saw %v, expected %v%s", ct, wc, histWhat(r)), Case: common.Case{Stream: "e2e", Op: cs}})
 			}
 			if !eqStrs(st, ws) {
-				res.Violate(common.Violation{Signature: "C01:filter-trace:server", What: fmt.Sprintf("server filters saw %v, expected %v", st, ws), Case: common.Case{Stream: "e2e", Op: cs}})
+				res.Violate(common.Violation{Signature: "C01:filter-trace:server" + histLocus(r), What: fmt.Sprintf("server filters saw %v, expected %v%s", st, ws, histWhat(r)), Case: common.Case{Stream: "e2e", Op: cs}})
 			}
 			// model: the same configuration through the Lean filter model
 			if mCall != nil && !timedOut {
@@ -765,10 +723,49 @@ func judgeAll(o *common.Opts, res *common.Result, fcfg FilterCfg, pool int, recs
 	}
 }
 
+// selName: which registration applies to a call in a given state
+func selName(gen, mw, prepost int) string {
+	switch {
+	case gen > 1:
+		return "single-replaced"
+	case gen == 1:
+		return "single"
+	case mw > 1:
+		return "mw-chain"
+	case mw == 1:
+		return "mw-one"
+	case prepost > 0:
+		return "prepost"
+	}
+	return "none"
+}
+
+func histLocus(r *Record) string {
+	if r.Hist != nil {
+		return "-registration-history"
+	}
+	return ""
+}
+
+func histWhat(r *Record) string {
+	if r.Hist == nil {
+		return ""
+	}
+	return fmt.Sprintf(" (step %d of a registration history; registered when the call was issued: %s, single slot registered %d/%d times)", r.Index, r.FState.Cfg, r.FState.CGen, r.FState.SGen)
+}
+
 func modelTraceForm(tr []string, side string) string {
 	var out []string
 	for _, e := range tr {
-		out = append(out, strings.TrimPrefix(e, side+"."))
+		e = strings.TrimPrefix(e, side+".")
+		// the model names the single slot "single"; which registration fills it is judged by the
+		// implementation-side oracle (expectedTraceAt)
+		if strings.HasPrefix(e, "single@") {
+			if j := strings.Index(e, "."); j > 0 {
+				e = "single" + e[j:]
+			}
+		}
+		out = append(out, e)
 	}
 	return strings.Join(out, " ")
 }
